@@ -1,7 +1,7 @@
 SPECIFICATION Spec
 CONSTANTS
   MaxLen = 3
-  Kinds = {"dict", "odict", "mproxy", "cmap", "dc", "dcslots", "dcchild", "dcslotschild", "plain", "slotsonly", "slotsonlychild", "slotsonlygrand", "plainchild", "varsonly", "dcfalsy", "plaindesc", "nt", "ntfalsy", "cmapfalsy", "dictget",
+  Kinds = {"dict", "odict", "mproxy", "cmap", "dc", "dcslots", "dcchild", "dcslotschild", "plain", "slotsonly", "slotsonlychild", "slotsonlygrand", "plainchild", "plaingrand", "varsonly", "dcfalsy", "plaindesc", "nt", "ntfalsy", "cmapfalsy", "dictget",
            "list", "tuple", "set", "frozenset", "deque", "str", "bytes", "gen", "iter", "citer"}
   Shapes = {"s", "z", "p", "l", "t", "s2", "c", "e"}
   Excused = {"mixed_first_pair"}
